@@ -260,6 +260,20 @@ def check_orders(ctx: Ctx, case) -> None:
                           "ValueError_backwards_across_change" if backwards_across_change
                           else "ValueError_other"])
         return
+    except OverflowError as e:
+        # A reordered [SyncTrack] can put a tempo line that FOLLOWS its predecessor in tick order at a time no
+        # timedelta can hold (a long fast stretch now read under a 0.001 BPM tempo).  Whether that time can be
+        # represented is outside this property (as in C15 / C18: times within the timedelta range); decided
+        # with exact arithmetic, counted, not judged.  Any other OverflowError is a violation.
+        from cpverif.props.c15 import _beyond_timedelta_range
+        sync_body = next((b for n_, b in out if n_ == "SyncTrack"), [])
+        if not identity and _beyond_timedelta_range(case["res"], sync_body):
+            ctx.classes["outcome_beyond_timedelta_range_not_judged"] += 1
+            ctx.note(case, classes=[f"mode_{case['mode']}"])
+            return
+        ctx.fail("order-error-type", f"reordered body raised {type(e).__name__}: {e} (the property "
+                                     f"allows ValueError only)", rc)
+        return
     except Exception as e:  # noqa: BLE001
         ctx.fail("order-error-type", f"reordered body raised {type(e).__name__}: {e} (the property "
                                      f"allows ValueError only)", rc)
